@@ -24,20 +24,21 @@ Inductive glob : str -> str -> Prop :=
 | G_lit b p t : is_wild b = false -> glob p t -> glob (b :: p) (b :: t).
 
 (** The same as a decision procedure (used to run the specification, and as the model of
-    [WildMatch::matches]). *)
+    [WildMatch::matches]).  [gstar k mid t]: a '*' followed by the rest of the pattern [k];
+    [mid] says that we are inside a character the star is consuming. *)
+Fixpoint gstar (k : str -> bool) (mid : bool) (t : str) {struct t} : bool :=
+  match t with
+  | [] => k []
+  | b :: t' =>
+      if is_cont b then (if mid then gstar k true t' else k t)
+      else k t || gstar k true t'
+  end.
+
 Fixpoint globb (p t : str) {struct p} : bool :=
   match p with
   | [] => is_nil t
   | x :: p' =>
-      if x =? c_star then
-        (* [mid]: we are inside a character that the star is consuming *)
-        (fix star (mid : bool) (t : str) {struct t} : bool :=
-           match t with
-           | [] => globb p' []
-           | b :: t' =>
-               if is_cont b then (if mid then star true t' else globb p' t)
-               else globb p' t || star true t'
-           end) false t
+      if x =? c_star then gstar (globb p') false t
       else if x =? c_qm then
         match next_char t with Some t' => globb p' t' | None => false end
       else
